@@ -52,6 +52,11 @@ type SecWriter struct {
 type SecInner struct {
 	Off int64 `json:"off"`
 	N   int64 `json:"n"`
+	// Seek >= 0: the inner section has been USED before the outer writer is laid
+	// over it — its cursor was moved to this section-relative position (Seek
+	// only: no byte reaches the disk). Where a parent's cursor stands is no
+	// business of a section nested in it. -1 / absent: a fresh parent.
+	Seek *int64 `json:"seek,omitempty"`
 }
 
 type SecOp struct {
@@ -133,6 +138,13 @@ func (Section) Generate(seed uint64, tier string) engine.Plan {
 		if r.Chance(1, 6) {
 			// nested: an outer section (or AtToWriter) over an inner SectionWriter
 			in := &SecInner{Off: w.Off, N: r.PickInt64(1, 16, 100, 100, 4096)}
+			if r.Chance(1, 3) {
+				k := r.PickInt64(1, 1, 5, in.N/2, in.N-1, in.N, in.N+3)
+				if k < 0 {
+					k = 0
+				}
+				in.Seek = &k
+			}
 			w.Inner = in
 			w.Off = r.PickInt64(0, 0, 1, in.N/2, in.N-1, in.N)
 			room := in.N - w.Off
@@ -537,7 +549,15 @@ func (Section) Execute(pl engine.Plan, c *engine.RunCtx) *engine.Failure {
 			shift := int64(0)
 			innerEnd := int64(^uint64(0) >> 1)
 			if w.Inner != nil {
-				under = iohelper.NewSectionWriter(h, w.Inner.Off, w.Inner.N)
+				innerSW := iohelper.NewSectionWriter(h, w.Inner.Off, w.Inner.N)
+				if w.Inner.Seek != nil {
+					if _, err := innerSW.Seek(*w.Inner.Seek, io.SeekStart); err != nil {
+						fail = engine.Failf("C18.seek", wi*1000, "Seek(%d, SeekStart) on the inner section [%d,+%d) returned %v", *w.Inner.Seek, w.Inner.Off, w.Inner.N, err)
+						return
+					}
+					st.Inc("probe.C18.nested_over_a_section_whose_cursor_was_moved")
+				}
+				under = innerSW
 				shift = w.Inner.Off
 				innerEnd = w.Inner.Off + w.Inner.N
 				st.Inc("probe.C18.nested_over_a_section")
